@@ -1,4 +1,5 @@
 import MpfVerif.Lemmas.LogicBlock
+import MpfVerif.Lemmas.LogicBlockGen
 /-!
 # C18 — logic blocks count, accrue and sequence exactly as specified
 
@@ -296,6 +297,59 @@ theorem advance_random_hits_an_open_step (c : Cfg) (s : St) (k : Nat) (hk : c.ki
     (getFlag s.flags k = true → step c s (.advr k) = (s, [])) := by
   constructor <;> intro hg <;> simp [step, stepLoaded, hl, hk, hg]
 
+/-! ## the hand model of a counter is what the source says (translator tie) -/
+
+/-- a counter reached from boot by any op sequence never carries accrual flags (the side condition of the tie) -/
+theorem counter_flags_stay_empty (c : Cfg) (ops : List Op) (hk : c.kind = .counter) : (run c (init c) ops).1.flags = [] := by
+  have key : ∀ (ops : List Op) (s : St), s.flags = [] → (run c s ops).1.flags = [] := by
+    intro ops
+    induction ops with
+    | nil => intro s h; exact h
+    | cons op r ih => intro s h; exact ih _ (counter_step_flags c s op hk h)
+  exact key ops _ (by simp [init, startFlags, hk])
+
+/-- **The model's counter methods are the source's** (`mpf/devices/logic_blocks.py` as it is now, regenerated into
+`Gen/LogicBlockOps.lean` on every check): in every state of a present counter, running the *generated* program of
+`Counter.count`, `LogicBlock.enable / disable / reset / restart / complete`, `Counter.check_complete`,
+`LogicBlock._logic_block_timeout` (at its deadline, the delay manager having removed the delay) and
+`Counter.stop_ignoring_hits` (at the window deadline) in the deep embedding - attribute and player-state store,
+configuration and templates as data, delays and event posts as a log of effects with their hand-given meaning `applyEff` -
+yields exactly the state and exactly the list of posted events that the hand model's `step` computes for the corresponding
+op; no logged action is without meaning, no `ignore_hits` is left without its closing delay, nothing raises.  Every theorem
+above about `step` / `run` therefore speaks about these methods of the source. -/
+theorem counter_methods_refine_source (c : Cfg) (s : St) (hk : c.kind = .counter) (hf : s.flags = []) (hl : s.loaded = true) :
+    genRun c s Gen.LogicBlockOps.count [] = (step c s .count, false, false, some .none) ∧
+    genRun c s Gen.LogicBlockOps.enable [] = (step c s .enable, false, false, some .none) ∧
+    genRun c s Gen.LogicBlockOps.disable [] = (step c s .disable, false, false, some .none) ∧
+    genRun c s Gen.LogicBlockOps.reset [] = (step c s .reset, false, false, some .none) ∧
+    genRun c s Gen.LogicBlockOps.restart [] = (step c s .restart, false, false, some .none) ∧
+    genRun c s Gen.LogicBlockOps.complete [] = (complete c s, false, false, some .none) ∧
+    genRun c s Gen.LogicBlockOps.check_complete [] = ((s, []), false, false, some (.bool (goalReached c s.value))) ∧
+    (s.timeoutDue = some s.now →
+      genRun c { s with timeoutDue := none } Gen.LogicBlockOps.p_logic_block_timeout [] = (step c s .fireT, false, false, some .none)) ∧
+    (s.windowUntil = some s.now →
+      genRun c s Gen.LogicBlockOps.stop_ignoring_hits [] = (step c s .fireW, false, false, some .none)) := by
+  have hs : ∀ o, step c s o = stepLoaded c s o := fun o => step_loaded c s o hl
+  refine ⟨?_, ?_, ?_, ?_, ?_, complete_gen c s hk hf, check_complete_gen c s, fun hd => ?_, fun hd => ?_⟩
+  · rw [hs]; simp only [stepLoaded, hk]; exact count_gen c s hk hf
+  · rw [hs]; exact enable_gen c s
+  · rw [hs]; exact disable_gen c s
+  · rw [hs]; exact reset_gen c s hk hf
+  · rw [hs]; exact restart_gen c s hk hf
+  · rw [hs]; exact timeout_gen c s hk hf hd
+  · rw [hs]; exact stop_ignoring_gen c s hd
+
+/-- hence, over every op sequence from boot: the `count` of the source, run in the state the sequence leads to, is the
+model's `count` step there (the flags side condition is discharged by `counter_flags_stay_empty`) - and in particular,
+in the source, a hit on a disabled counter or inside the window writes nothing, posts nothing and arms nothing -/
+theorem reachable_count_refines_source (c : Cfg) (ops : List Op) (hk : c.kind = .counter)
+    (hl : (run c (init c) ops).1.loaded = true) :
+    genRun c (run c (init c) ops).1 Gen.LogicBlockOps.count [] = (step c (run c (init c) ops).1 .count, false, false, some .none) ∧
+    (accepted (run c (init c) ops).1 = false →
+      genRun c (run c (init c) ops).1 Gen.LogicBlockOps.count [] = (((run c (init c) ops).1, []), false, false, some .none)) := by
+  have h := (counter_methods_refine_source c _ hk (counter_flags_stay_empty c ops hk) hl).1
+  exact ⟨h, fun ha => by rw [h, count_rejected c _ ha]⟩
+
 /-! ## the hypotheses are satisfiable on concrete, non-trivial runs (kernel evaluation) -/
 
 def demo : Cfg := { kind := .counter, start := 2, interval := 1, goal := some 4, window := 2, timeout := 8 }
@@ -330,6 +384,11 @@ example : (xrun (xinit pdemo true false) [.startMode 0, .core .count, .stopMode,
       .stopMode, .startMode 0]).1.s.value = 3 ∧
     (xrun (xinit pdemo true false) [.startMode 0, .core .count, .stopMode, .startMode 1]).1.s.value = 2 ∧
     (xrun (xinit pdemo true false) [.startMode 0, .core .count, .stopMode, .startMode 1]).1.persist = true := by decide
+
+/-- the hypotheses of the tie hold on the demo counter after a non-trivial run -/
+example : demo.kind = .counter ∧ (run demo (init demo) [.enable, .count, .clock, .clock, .fireW]).1.flags = [] ∧
+    (run demo (init demo) [.enable, .count, .clock, .clock, .fireW]).1.loaded = true ∧
+    accepted (run demo (init demo) [.enable, .count, .clock]).1 = false := by decide
 
 def demoAcc : Cfg := { kind := .accrual, steps := 3, startEnabled := true }
 example : allTrue (marks (init demoAcc).flags [2, 0]) = false ∧ (init demoAcc).enabled = true := by decide
